@@ -4,7 +4,7 @@ import PPModel.Driver.Parse
 /-
   Driver handlers for C16.
 
-    infixg <table>                       ↦ ((<fb ids>) (<node>*))          the node table of `infixGrammar`
+    infixg <table>                       ↦ (<root> (<fb ids>) (<node>*))          the node table of `infixGrammar`
     infixp <table> <fuel> <parseAll> "<input>" ↦ outcome of parse_string on `infixGrammar` with `parseX`
     infixnest <table> <ex>               ↦ ("<render>" <nest>)
     ppx (<fb ids>) <entry> <fuel> <root> "<dflt white>" "<input>" (<node>*)   parse_string with `parseX` on an
@@ -99,12 +99,12 @@ def ex? : Nat → Sexp → Option Ex
 def infixHandle : List Sexp → Option Sexp
   | [.atom "infixg", t] => do
       let t ← table? t
-      pure (.list [.list ((fbIds t).map ofNat), .list ((infixGrammar t).map nodeSexp)])
+      pure (.list [ofNat rootId, .list ((fbIds t).map ofNat), .list ((infixGrammar t).map nodeSexp)])
   | [.atom "infixp", t, fuel, pa, inp] => do
       let t ← table? t
       let s := LineCol.expandTabs (← chars? inp)
       let g := infixGrammar t
-      pure (outSexpNoEnd (parseString (parseX (fbIds t) g s (← fuel.nat?)) g 0 t.white s (← pa.bool?)))
+      pure (outSexpNoEnd (parseString (parseX (fbIds t) g s (← fuel.nat?)) g rootId t.white s (← pa.bool?)))
   | [.atom "infixnest", t, e] => do
       let t ← table? t
       let e ← ex? 100000 e
